@@ -1,5 +1,6 @@
 import XModel.ManagerInv
 import XModel.ManagerC03b
+import XModel.ManagerC11
 /-!
 # C03 — removing or replacing a definition leaves no trace
 The four indices are a function of the surviving tasks (`Index.Inv`), preserved by `register'` (fresh
@@ -65,5 +66,22 @@ open Manager in
 /-- the edges of the ordering graph are a function of the task table alone -/
 theorem C03_edges_from_tasks (s : MState) (hi : MInv s) (u w : Path) :
     w ∈ gOf s.idx u ↔ sRt (s.defs.map MTask.toIdx) u w ≥ 1 := gOf_mem_iff s hi u w
+
+open Manager in
+/-- **like a fresh manager in which only the surviving definitions were registered**: take any reachable state of a
+    manager of expression tasks (index invariant `MInv`, whatever history of definitions, replacements and removals led
+    to it) and a fresh manager over the same containers into which the surviving definitions are registered one by one
+    (`load` of the `dump`); both hold the same task table, and every later assignment to a plain location in C01's scope
+    ends with the same container contents and definitions on both, under any legal schedules — nothing of the removed
+    definitions is left that an assignment could see -/
+theorem C03_like_fresh_manager (s : MState) (ow : Bool) (hi : MInv s) (hfz : s.frozen = false)
+    (hex : ExprDefs s.defs) (hc : Consistent s) :
+    ∃ s', load (freshOver s) ow (dump s) = (s', none) ∧ s'.defs = s.defs ∧ s'.store = s.store ∧ MInv s' ∧
+      ∀ (sched1 sched2 : Sched) (p : Path) (v : Store.Val), lookDef s.defs p = none → Scope s p →
+        ValidSched (gOf s.idx) (findTaskids s.idx (chainR p)) (sched1 (findTaskids s.idx (chainR p))) →
+        ValidSched (gOf s'.idx) (findTaskids s'.idx (chainR p)) (sched2 (findTaskids s'.idx (chainR p))) →
+        ∀ s1, setValue sched1 s p v = (s1, none) →
+          ∃ s2, setValue sched2 s' p v = (s2, none) ∧ s2.store = s1.store ∧ s2.defs = s1.defs :=
+  load_dump_reacts_identically s ow hi hfz hex hc
 
 end Properties.C03
